@@ -57,6 +57,55 @@ def _ancestor_ifs(root, node):
     return list(reversed(out))
 
 
+REMOVAL_CALLS = {"VALIDATE": r"validate_mutation_time", "PREPARE": r"prepare_delta", "STOPTREE": r".*stop_owned_ts_data_tree",
+                 "ENSURE": r"ensure_delta_capacity", "ADD_RESET": r"added_\.reset", "REM_SET": r"removed_\.set",
+                 "UNPUBLISH": r"value_published_\.reset", "MOD_RESET": r"modified_\.reset", "KEYSET": r"key_set_tracking_\.record_modified"}
+
+
+def removal_tables(run: Run, rule: str, keep=None) -> None:
+    """Decision tables of TSS/TSD remove_key / remove_slot; `keep` projects the table onto the call roles a property speaks about."""
+    n = 0
+    for cls in STORES:
+        for nm in ("remove_key", "remove_slot"):
+            fa = R.fn(run, SLOT, nm, cls=cls)
+            tsd = cls == "TSDSlotStorage"
+            roles = [Role("ADDED", "bool", r"slot_added\(.*\)", required=False), Role("REMOVED_OK", "bool", r"keys_\.remove_slot\(.*\)")]
+            if nm == "remove_key":
+                roles.append(Role("NOTFOUND", "bool", r"keys_\.find_slot\(key\)==KeySlotStore::npos|KeySlotStore::npos==keys_\.find_slot\(key\)"))
+            else:
+                roles += [Role("NPOS", "bool", r"slot==KeySlotStore::npos|KeySlotStore::npos==slot"), Role("LIVE", "bool", r"keys_\.slot_live\(slot\)")]
+            if tsd:
+                roles.append(Role("PUB", "bool", r"slot_value_published\(.*\)", required=False))
+
+            def spec(v, nm=nm, tsd=tsd):
+                calls = [("VALIDATE", ("modified_time",)), ("PREPARE", ("modified_time",))]
+                done = False
+                if nm == "remove_key":
+                    done = v.b("NOTFOUND")
+                else:
+                    done = v.b("NPOS") or not v.b("LIVE")
+                if not done:
+                    if tsd:
+                        calls.append(("STOPTREE", (ANY,)))
+                    if v.b("REMOVED_OK"):
+                        calls.append(("ENSURE", ()))
+                        if tsd:
+                            if v.b("PUB"):
+                                calls.append(("ADD_RESET", (ANY,)) if v.b("ADDED") else ("REM_SET", (ANY,)))
+                                calls.append(("UNPUBLISH", (ANY,)))
+                            calls.append(("MOD_RESET", (ANY,)))
+                            calls.append(("KEYSET", ("modified_time",)))
+                        else:
+                            calls.append(("ADD_RESET", (ANY,)) if v.b("ADDED") else ("REM_SET", (ANY,)))
+                if keep is not None:
+                    calls = [c for c in calls if c[0] in keep]
+                return Expect(calls=calls)
+            rc = REMOVAL_CALLS if keep is None else {k: v for k, v in REMOVAL_CALLS.items() if k in keep}
+            R.k1(run, rule, fa, roles, spec, role_calls=rc, what=f"{cls}::{nm}")
+            n += 1
+    run.sites(n, 4, "removal functions")
+
+
 def check(run: Run) -> None:
     t = run.tree
 
@@ -267,46 +316,7 @@ def check(run: Run) -> None:
     with run.obligation("C05.g", "K1", "TSD / TSS removal tables (remove_key, remove_slot): nothing changes unless the key store removed the slot; a removal "
                         "cancels a same-cycle add (else records a removal); TSD additionally un-publishes the slot's value on EVERY removal, clears its "
                         "modified bit and stamps the key set's own tracking on EVERY membership change"):
-        n = 0
-        for cls in STORES:
-            for nm in ("remove_key", "remove_slot"):
-                fa = R.fn(run, SLOT, nm, cls=cls)
-                tsd = cls == "TSDSlotStorage"
-                roles = [Role("ADDED", "bool", r"slot_added\(.*\)"), Role("REMOVED_OK", "bool", r"keys_\.remove_slot\(.*\)")]
-                if nm == "remove_key":
-                    roles.append(Role("NOTFOUND", "bool", r"keys_\.find_slot\(key\)==KeySlotStore::npos|KeySlotStore::npos==keys_\.find_slot\(key\)"))
-                else:
-                    roles += [Role("NPOS", "bool", r"slot==KeySlotStore::npos|KeySlotStore::npos==slot"), Role("LIVE", "bool", r"keys_\.slot_live\(slot\)")]
-                if tsd:
-                    roles.append(Role("PUB", "bool", r"slot_value_published\(.*\)"))
-
-                def spec(v, nm=nm, tsd=tsd):
-                    calls = [("VALIDATE", ("modified_time",)), ("PREPARE", ("modified_time",))]
-                    if nm == "remove_key":
-                        if v.b("NOTFOUND"):
-                            return Expect(calls=calls)
-                    elif v.b("NPOS") or not v.b("LIVE"):
-                        return Expect(calls=calls)
-                    if tsd:
-                        calls.append(("STOPTREE", (ANY,)))
-                    if not v.b("REMOVED_OK"):
-                        return Expect(calls=calls)
-                    calls.append(("ENSURE", ()))
-                    if tsd:
-                        if v.b("PUB"):
-                            calls.append(("ADD_RESET", (ANY,)) if v.b("ADDED") else ("REM_SET", (ANY,)))
-                            calls.append(("UNPUBLISH", (ANY,)))
-                        calls.append(("MOD_RESET", (ANY,)))
-                        calls.append(("KEYSET", ("modified_time",)))
-                    else:
-                        calls.append(("ADD_RESET", (ANY,)) if v.b("ADDED") else ("REM_SET", (ANY,)))
-                    return Expect(calls=calls)
-                R.k1(run, "C05.g", fa, roles, spec, role_calls={"VALIDATE": r"validate_mutation_time", "PREPARE": r"prepare_delta", "STOPTREE": r".*stop_owned_ts_data_tree",
-                                                                "ENSURE": r"ensure_delta_capacity", "ADD_RESET": r"added_\.reset", "REM_SET": r"removed_\.set",
-                                                                "UNPUBLISH": r"value_published_\.reset", "MOD_RESET": r"modified_\.reset",
-                                                                "KEYSET": r"key_set_tracking_\.record_modified"}, what=f"{cls}::{nm}")
-                n += 1
-        run.sites(n, 4, "removal functions")
+        removal_tables(run, "C05.g")
 
     with run.obligation("C05.h", "K7", "a dictionary key erased and written again within ONE cycle: the removal clears the slot's modified bit while the child keeps "
                         "its own modification time, so the child's next write is 'not new' and never re-marks the parent; the revive branch of insert_key "
